@@ -15,6 +15,8 @@ SPEC = VERIF / 'spec'
 EVIDENCE = VERIF / 'evidence'
 REPLAYS = VERIF / 'replays'
 REPO = Path(os.environ.get('FGGS_REPO', '/repo'))
+if str(REPO) != '/repo':
+    REPLAYS = VERIF / 'replays' / 'other_tree'      # checks pointed at a scratch tree (seeded changes) keep their replays apart
 NCPU = os.cpu_count() or 4
 
 # sentinels shared with spec/Base.tla
@@ -341,7 +343,7 @@ def finish(o: Outcome, findings: List[dict]) -> int:
         print(f"KNOWN-FINDING: property={o.pid} {fid}: {f['what']} (hit {cnt}x)")
     rc = 0
     if o.violations:
-        REPLAYS.mkdir(exist_ok=True)
+        REPLAYS.mkdir(parents=True, exist_ok=True)
         seen = {}
         for v in o.violations:
             key = (v['clause'], v.get('part'))
